@@ -66,7 +66,7 @@ sim::Json GenOpts::to_json() const {
     j["allow_msw"] = allow_msw; j["allow_history"] = allow_history; j["allow_groups"] = allow_groups;
     j["restart_safe_conditions"] = restart_safe_conditions; j["nonmidnight"] = nonmidnight; j["step_events"] = step_events;
     j["action_inline_safe"] = action_inline_safe; j["vector_target"] = vector_target; j["units"] = units;
-    j["fmtout"] = fmtout; j["unifout"] = unifout; j["esmry"] = esmry; j["rptonly"] = rptonly; j["sumthin"] = sumthin; j["date_conditions"] = date_conditions; j["nested_parens"] = nested_parens; j["stop_safe"] = stop_safe; j["weltarg_safe"] = weltarg_safe; j["cond_well_bias"] = cond_well_bias; j["min_wells"] = min_wells; j["reparent_groups"] = reparent_groups; j["late_edits"] = late_edits; j["geo_kws"] = geo_kws; j["udq_unary_minus"] = udq_unary_minus;
+    j["fmtout"] = fmtout; j["unifout"] = unifout; j["esmry"] = esmry; j["rptonly"] = rptonly; j["sumthin"] = sumthin; j["date_conditions"] = date_conditions; j["nested_parens"] = nested_parens; j["stop_safe"] = stop_safe; j["weltarg_safe"] = weltarg_safe; j["cond_well_bias"] = cond_well_bias; j["min_wells"] = min_wells; j["reparent_groups"] = reparent_groups; j["late_edits"] = late_edits; j["geo_kws"] = geo_kws; j["tuning_vfp"] = tuning_vfp; j["udq_unary_minus"] = udq_unary_minus;
     return j;
 }
 GenOpts GenOpts::from_json(const Json& j0) {
@@ -81,7 +81,7 @@ GenOpts GenOpts::from_json(const Json& j0) {
     o.step_events = j.getb("step_events", o.step_events); o.action_inline_safe = j.getb("action_inline_safe", o.action_inline_safe);
     o.vector_target = static_cast<int>(j.geti("vector_target", 0)); o.units = j.gets("units", "");
     o.fmtout = static_cast<int>(j.geti("fmtout", -1)); o.unifout = static_cast<int>(j.geti("unifout", -1)); o.esmry = j.getb("esmry", false);
-    o.rptonly = j.getb("rptonly", false); o.sumthin = j.getb("sumthin", false); o.date_conditions = j.getb("date_conditions", o.date_conditions); o.nested_parens = j.getb("nested_parens", o.nested_parens); o.stop_safe = j.getb("stop_safe", o.stop_safe); o.cond_well_bias = j.getd("cond_well_bias", 0.0); o.min_wells = static_cast<int>(j.geti("min_wells", 1)); o.reparent_groups = j.getb("reparent_groups", false); o.late_edits = j.getb("late_edits", false); o.geo_kws = j.getb("geo_kws", false); o.udq_unary_minus = j.getb("udq_unary_minus", false); o.weltarg_safe = j.getb("weltarg_safe", false);   // absent in replay files written before the knob existed
+    o.rptonly = j.getb("rptonly", false); o.sumthin = j.getb("sumthin", false); o.date_conditions = j.getb("date_conditions", o.date_conditions); o.nested_parens = j.getb("nested_parens", o.nested_parens); o.stop_safe = j.getb("stop_safe", o.stop_safe); o.cond_well_bias = j.getd("cond_well_bias", 0.0); o.min_wells = static_cast<int>(j.geti("min_wells", 1)); o.reparent_groups = j.getb("reparent_groups", false); o.late_edits = j.getb("late_edits", false); o.geo_kws = j.getb("geo_kws", false); o.tuning_vfp = j.getb("tuning_vfp", false); o.udq_unary_minus = j.getb("udq_unary_minus", false); o.weltarg_safe = j.getb("weltarg_safe", false);   // absent in replay files written before the knob existed
     return o;
 }
 
@@ -225,6 +225,17 @@ struct Gen {
         return k;
     }
 
+    Kw nextstep_kw() { Kw k; k.name = "NEXTSTEP"; k.terminated = false; std::vector<std::string> r = {num(std::round(rng.real(0.5, 5) * 4) / 4)}; if (rng.chance(0.5)) r.push_back(q("YES")); k.recs.push_back(r); return k; }
+    Kw vfpprod_kw(int variant) {
+        Kw k; k.name = "VFPPROD"; k.terminated = false;
+        const double off = 5.0 * variant;
+        k.recs.push_back({"1", num(2000 + 100 * variant), q("OIL"), q("WCT"), q("GOR"), q("THP"), "' '", "1*", q("BHP")});
+        k.recs.push_back({"1", "10"}); k.recs.push_back({"10", "20"}); k.recs.push_back({"0", "0.5"}); k.recs.push_back({"100", "200"}); k.recs.push_back({"0"});
+        int v = 0;
+        for (int g = 1; g <= 2; ++g) for (int w = 1; w <= 2; ++w) for (int t = 1; t <= 2; ++t) { k.recs.push_back({std::to_string(t), std::to_string(w), std::to_string(g), "1", num(50 + off + 5 * (t - 1) + v), num(60 + off + 5 * (t - 1) + v)}); ++v; }
+        return k;
+    }
+
     Kw geo_kw() {
         static const char* nm[] = {"MULTZ", "MULTX", "MULTY", "MULTZ-", "MULTX-", "MULTY-"};
         Kw k; k.name = nm[rng.below(6)]; k.terminated = false;
@@ -239,6 +250,7 @@ struct Gen {
         double u = rng.unit();
         if (o.reparent_groups && u < 0.08) { k = reparent(true); if (!k.recs.empty()) return k; k = Kw(); }
         if (o.geo_kws && rng.chance(0.2)) return geo_kw();
+        if (o.tuning_vfp && rng.chance(0.2)) return nextstep_kw();
         if (u < 0.35) { k.name = "WELOPEN"; static const char* st[] = {"SHUT", "OPEN", "STOP", "SHUT"}; k.recs.push_back({q(wn()), q(st[rng.below(4)])}); }
         else if (u < 0.55) { k.name = "WEFAC"; k.recs.push_back({q(wn()), num(efac())}); }
         else if (u < 0.70 && !prods.empty()) { k.name = "WELTARG"; static const char* md[] = {"ORAT", "LRAT", "BHP", "WRAT"}; std::string mo = md[rng.below(4)]; k.recs.push_back({q(prods[rng.below(prods.size())]), q(mo), num(mo == "BHP" ? bhp_lim(false) : rate())}); }
@@ -357,6 +369,7 @@ struct Gen {
         for (auto& w : m.wells) m.block0.push_back(wcon(w, w.status0));
         for (auto& w : m.wells) if (rng.chance(0.35)) { Kw k; k.name = "WEFAC"; k.recs.push_back({q(w.name), num(efac())}); m.block0.push_back(k); }
         for (auto& g : groups) if (rng.chance(0.3)) { Kw k; k.name = "GEFAC"; k.recs.push_back({q(g), num(efac())}); m.block0.push_back(k); }
+        if (o.tuning_vfp) m.block0.push_back(vfpprod_kw(0));
         for (auto& g : groups) if (rng.chance(0.15)) { Kw k; k.name = "GCONPROD"; k.recs.push_back({q(g), q("ORAT"), num(rate() * 3), "3*", q("RATE")}); m.block0.push_back(k); }
         if (rng.chance(0.3) && m.wells.size() >= 2) { Kw k; k.name = "WLIST"; std::vector<std::string> r = {q("*LST1"), q("NEW")}; for (auto& w : m.wells) if (rng.chance(0.6)) r.push_back(q(w.name)); if (r.size() > 2) { k.recs.push_back(r); m.block0.push_back(k); } }
         int nudq = o.max_udq > 0 ? static_cast<int>(rng.range(0, o.max_udq)) : 0;
@@ -394,7 +407,8 @@ struct Gen {
             for (int e = 0; e < ne; ++e) {
                 double u = rng.unit(); Kw k;
                 const WellDef& w = m.wells[rng.below(m.wells.size())];
-                if (o.geo_kws && rng.chance(0.15)) k = geo_kw();
+                if (o.tuning_vfp && rng.chance(0.15)) k = rng.chance(0.5) ? nextstep_kw() : vfpprod_kw(1 + static_cast<int>(rng.below(3)));
+                else if (o.geo_kws && rng.chance(0.15)) k = geo_kw();
                 else if (o.late_edits && rng.chance(0.4)) {
                     const double v = rng.unit(); const double diam = m.units == "FIELD" ? 0.5 : m.units == "LAB" ? 10 : 0.2;
                     if (v < 0.3) { k.name = "WPIMULT"; k.recs.push_back({q(w.name), num(std::round(rng.real(0.25, 2.5) * 100) / 100)}); if (rng.chance(0.4)) { k.recs.back().push_back("2*"); k.recs.back().push_back(std::to_string(static_cast<int>(rng.range(w.k1, w.k2)))); } }
